@@ -1,0 +1,104 @@
+//! Verification hooks. Compiled only with `--cfg graphrs_verif`; never part of a normal build.
+//!
+//! `Graph::verif_snapshot` returns a read-only copy of the private indexes so that an
+//! external conformance harness can compare the name-keyed, position-keyed and
+//! traversal stores with one another and with a specification.
+
+use super::Graph;
+use std::fmt::Display;
+use std::hash::Hash;
+
+/// A plain-data copy of every private index of a [Graph](../struct.Graph.html).
+pub struct VerifSnapshot<T, A> {
+    /// `nodes_map`: name -> position
+    pub nodes_map: Vec<(T, usize)>,
+    /// `nodes_map_rev`: position -> (name, attributes)
+    pub nodes_map_rev: Vec<(usize, T, Option<A>)>,
+    /// `nodes_vec`: (name, attributes) in position order
+    pub nodes_vec: Vec<(T, Option<A>)>,
+    /// `edges`: (key u, key v) -> [(edge u, edge v, weight, attributes)]
+    pub edges: Vec<((T, T), Vec<(T, T, f64, Option<A>)>)>,
+    /// `edges_map`: (position u, position v) -> [(edge u, edge v, weight, attributes)]
+    pub edges_map: Vec<((usize, usize), Vec<(T, T, f64, Option<A>)>)>,
+    /// `successors`: name -> names
+    pub successors: Vec<(T, Vec<T>)>,
+    /// `successors_map`: position -> positions
+    pub successors_map: Vec<(usize, Vec<usize>)>,
+    /// `successors_vec`: per position, (position, weight) in stored order
+    pub successors_vec: Vec<Vec<(usize, f64)>>,
+    /// `predecessors`: name -> names
+    pub predecessors: Vec<(T, Vec<T>)>,
+    /// `predecessors_map`: position -> positions
+    pub predecessors_map: Vec<(usize, Vec<usize>)>,
+    /// `predecessors_vec`: per position, (position, weight) in stored order
+    pub predecessors_vec: Vec<Vec<(usize, f64)>>,
+}
+
+impl<T, A> Graph<T, A>
+where
+    T: Eq + Clone + PartialOrd + Ord + Hash + Send + Sync + Display,
+    A: Clone,
+{
+    /// Returns a copy of the private indexes. Read-only; verification builds only.
+    pub fn verif_snapshot(&self) -> VerifSnapshot<T, A> {
+        let edge_list = |es: &Vec<std::sync::Arc<crate::Edge<T, A>>>| {
+            es.iter()
+                .map(|e| (e.u.clone(), e.v.clone(), e.weight, e.attributes.clone()))
+                .collect::<Vec<_>>()
+        };
+        VerifSnapshot {
+            nodes_map: self.nodes_map.iter().map(|(k, v)| (k.clone(), *v)).collect(),
+            nodes_map_rev: self
+                .nodes_map_rev
+                .iter()
+                .map(|(k, n)| (*k, n.name.clone(), n.attributes.clone()))
+                .collect(),
+            nodes_vec: self
+                .nodes_vec
+                .iter()
+                .map(|n| (n.name.clone(), n.attributes.clone()))
+                .collect(),
+            edges: self
+                .edges
+                .iter()
+                .map(|(k, es)| (k.clone(), edge_list(es)))
+                .collect(),
+            edges_map: self
+                .edges_map
+                .iter()
+                .flat_map(|(u, hm)| hm.iter().map(move |(v, es)| ((*u, *v), es)))
+                .map(|(k, es)| (k, edge_list(es)))
+                .collect(),
+            successors: self
+                .successors
+                .iter()
+                .map(|(k, hs)| (k.clone(), hs.iter().cloned().collect()))
+                .collect(),
+            successors_map: self
+                .successors_map
+                .iter()
+                .map(|(k, hs)| (*k, hs.iter().copied().collect()))
+                .collect(),
+            successors_vec: self
+                .successors_vec
+                .iter()
+                .map(|v| v.iter().map(|a| (a.node_index, a.weight)).collect())
+                .collect(),
+            predecessors: self
+                .predecessors
+                .iter()
+                .map(|(k, hs)| (k.clone(), hs.iter().cloned().collect()))
+                .collect(),
+            predecessors_map: self
+                .predecessors_map
+                .iter()
+                .map(|(k, hs)| (*k, hs.iter().copied().collect()))
+                .collect(),
+            predecessors_vec: self
+                .predecessors_vec
+                .iter()
+                .map(|v| v.iter().map(|a| (a.node_index, a.weight)).collect())
+                .collect(),
+        }
+    }
+}
